@@ -7,9 +7,11 @@ set P of traceable static addresses is known from the template; constraint maps 
 finite maps {address -> unique float value} mixing valid addresses with unknown top-level names,
 wrong last components, addresses below a leaf, values at interior nodes, sibling swaps, unknown
 nested names — each optionally decorated with index components (int, 0-d array, index array,
-full slice, int+array) at documented vector levels or anywhere else, and built in seven ways
+full slice, int+array) at documented vector levels or anywhere else, and built in ten ways
 (| fold, .at chain, ChoiceMap.d, entry/from_mapping, grouped sub-maps, inside jax.jit with traced
-values, jax.vmap-built index levels).
+values, jax.vmap-built index levels, .mask(traced True), ChoiceMap.switch over groups of entries with an
+array index, and "a trace's own choices | untraceable extras" — own choices are traceable by
+definition whatever the model, so that arm needs no template knowledge).
 
 Oracle (finite-map model; results are read back structurally over Static/Indexed/Or/Choice nodes,
 through the public lookup interface for index-free maps, and by a representation-free data census):
@@ -25,6 +27,8 @@ library's own (abstract) simulate trace, and against a real simulate() trace for
 
 from __future__ import annotations
 
+import os
+
 import numpy as np
 
 from vf import common
@@ -38,9 +42,12 @@ CONFIG = {
     "rule": "template models (depth<=2 quick / 3 thorough) x 8 (12 thorough) constraint maps each; a case = (model, map); non-trivial when the map has >=2 entries or an index component, and the model has a combinator or a nested call; distinct by (model kinds, sorted entry classes with index forms, builder).",
     "reach_anchors": [f"{CM}:ChoiceMap.invalid_subset", f"{CM}:_shape_selection", f"{CM}:Static.filter", f"{CM}:Indexed.filter", f"{CM}:Or.filter", f"{CM}:Choice.filter", f"{CM}:Switch.filter"],
     "reach_required": [f"{CM}:ChoiceMap.invalid_subset", f"{CM}:_shape_selection", f"{CM}:Static.filter", f"{CM}:Indexed.filter", f"{CM}:Or.filter"],
-    "counters_required": ["cases", "expect_none", "expect_submap", "expect_submap_mixed", "entries_indexed", "oracle_selfcheck_ok", "arm_jit", "arm_or_fold", "arm_vmap_built"],
+    "counters_required": ["cases", "expect_none", "expect_submap", "expect_submap_mixed", "entries_indexed", "oracle_selfcheck_ok", "arm_jit", "arm_or_fold", "arm_vmap_built", "arm_masked", "arm_switch_map", "arm_own_choices"],
     "assumptions": ["traceable addresses of a template are those documented for its combinators (vector combinators, mask, dimap add index levels only; switch/or_else may trace any branch's addresses)", "length-0 vector combinators and concrete-False masks are not generated (whether their addresses count as traceable is not specified)", "mix is not generated (its internal addresses are not documented)", "jax.tree_util.tree_leaves is trusted for the float-data census of a result", "results are read back as finite maps by walking Static/Indexed/Or/Choice nodes (lookups with index components through mixed maps raise inside the library, see notes/C33_findings.md); an unknown node class degrades the check to the census"],
 }
+
+
+ARMS = M.BUILDERS + ["masked", "switch_map", "own_choices", "own_choices"]
 
 
 def _sig(op, on, field, cond):
@@ -61,7 +68,7 @@ def _census_expected(entries):
     return sorted(out)
 
 
-def judge(ctx, model, args, spec, P, entries, builder, chm, res, on, check_again):
+def judge(ctx, model, args, spec, P, entries, builder, chm, res, on, check_again, static_read=False):
     """Compare one observed result with the finite-map expectation. Returns True when it held."""
     inv = [e for e in entries if not e.valid]
     desc = {"model": M.show(spec), "traceable": sorted("/".join(p) for p in P), "map": [e.show() for e in entries], "builder": builder}
@@ -70,13 +77,19 @@ def judge(ctx, model, args, spec, P, entries, builder, chm, res, on, check_again
         ctx.count("expect_none")
         if res is not None:
             try:
-                gm = M.enumerate_map(res)
+                gm = M.enumerate_map(res, static=True)
+                shell = gm == {} and M.enumerate_map.last_info["empty_switch_nodes"] > 0
             except M.UnknownNode:
-                gm = {}
+                gm, shell = {}, False
+            if shell:
+                # known mechanism (notes/C33_findings.md #1): a Switch node whose branches are all empty is
+                # not recognised as empty, so a map with only traceable addresses does not give None
+                ctx.violation(_sig("invalid_subset", "switch-typed-map", "not-None", "all-traceable,result-is-an-empty-switch-shell"), detail="every address is traceable; the result is not None but holds no address at all (Switch nodes with empty branches)", result=common.short(res, 400), **desc)
+                return False
             by_addr = {M.norm_addr(e.addr): e for e in entries}
             rep = [by_addr[k] for k in gm if k in by_addr]
-            e0 = rep[0] if rep else entries[0]
-            ctx.violation(_sig("invalid_subset", on, "spurious", f"all-valid,{e0.cls},{e0.idxform}"), detail=f"every address is traceable but the result is not None; reported: {[e.show() for e in rep]}", result=common.short(res, 400), **desc)
+            e0 = rep[0] if rep else (entries[0] if entries else None)
+            ctx.violation(_sig("invalid_subset", on, "spurious", f"all-valid,{e0.cls},{e0.idxform}" if e0 else "all-valid,own-choices"), detail=f"every address is traceable but the result is not None; reported: {[e.show() for e in rep] or sorted(gm)[:4]}", result=common.short(res, 400), **desc)
             ok = False
         return ok
     ctx.count("expect_submap")
@@ -91,7 +104,7 @@ def judge(ctx, model, args, spec, P, entries, builder, chm, res, on, check_again
         return False
     # (1) structural read-back of the result as a finite map {address: value}
     try:
-        got_map = M.enumerate_map(res)
+        got_map = M.enumerate_map(res, static=static_read)
     except M.UnknownNode as ex:
         got_map = None
         ctx.count("readback_unknown_node")
@@ -118,7 +131,7 @@ def judge(ctx, model, args, spec, P, entries, builder, chm, res, on, check_again
                     ctx.violation(_sig("invalid_subset", on, "value", f"{e.cls},{e.idxform}"), detail=f"value at {e.show()} differs from the constraint's", result=common.short(res, 400), **desc)
             ok = False
     # (2) index-free maps: the same through the public lookup interface
-    if ok and all(e.idxform == "none" for e in entries):
+    if ok and not static_read and all(e.idxform == "none" for e in entries):
         ctx.count("readback_lookup")
         for e in entries:
             a = tuple(e.addr)
@@ -136,7 +149,7 @@ def judge(ctx, model, args, spec, P, entries, builder, chm, res, on, check_again
                 ctx.violation(_sig("invalid_subset", on, "missed" if not present else "value", f"{e.cls},{e.idxform}"), detail=f"untraceable address {e.show()} reads back as present={present} value={val}", result=common.short(res, 400), **desc)
                 ok = False
                 break
-    if ok:
+    if ok and not static_read:
         got_c, exp_c = M.float_census(res), _census_expected(inv)
         if got_c != exp_c:
             extra = sorted(set(got_c) - set(exp_c))
@@ -148,7 +161,11 @@ def judge(ctx, model, args, spec, P, entries, builder, chm, res, on, check_again
         ctx.count("second_application")
         try:
             again = res.invalid_subset(model, args)
-            if again is None or M.float_census(again) != M.float_census(res):
+            if static_read:
+                same = again is not None and M.same_finite_map(M.enumerate_map(again, static=True), M.enumerate_map(res, static=True))
+            else:
+                same = again is not None and M.float_census(again) == M.float_census(res)
+            if not same:
                 ctx.violation(_sig("invalid_subset", on, "idempotence", "second-application"), detail="invalid_subset(result) differs from result", result=common.short(res, 300), again=common.short(again, 300), **desc)
                 ok = False
         except Exception as ex:  # noqa: BLE001
@@ -157,7 +174,7 @@ def judge(ctx, model, args, spec, P, entries, builder, chm, res, on, check_again
     return ok
 
 
-def selfcheck_model(ctx, model, args, P, spec, real):
+def selfcheck_model(ctx, model, args, P, spec, real, holder=None):
     """Validate the template's address set against the library's own trace of the model (never a
     violation): abstractly via jax.eval_shape(simulate) for every model, by a real simulate() for a few."""
     import jax
@@ -168,6 +185,8 @@ def selfcheck_model(ctx, model, args, P, spec, real):
 
         def probe(k, a):
             chm = model.simulate(k, a).get_choices()
+            if real and holder is not None:
+                holder["own"] = chm
             seen.append([((chm(p) if p else chm).has_value()) for p in Pl])
             return 0
 
@@ -194,10 +213,12 @@ def run(ctx):
     import jax
     import jax.numpy as jnp
 
-    n_models = ctx.pick(112, 1024)
+    n_models = ctx.pick(80, 640)
+    if os.environ.get("VF_C33_MODELS"):  # development knob (shorter mutation runs); never set by ./check
+        n_models = int(os.environ["VF_C33_MODELS"])
     maps_per_model = ctx.pick(8, 12)
     max_depth = ctx.pick(2, 3)
-    budget = ctx.pick(200.0, 1800.0)
+    budget = ctx.pick(200.0, 800.0)
     counter = [0]
     for mi in ctx.my_share(n_models):
         if ctx.elapsed() > budget:
@@ -222,7 +243,8 @@ def run(ctx):
             ctx.count("model_kind_" + k)
         if not selfcheck_model(ctx, model, args, P, spec, real=False):
             continue
-        if mi % 16 == 0 and not selfcheck_model(ctx, model, args, P, spec, real=True):
+        holder = {}
+        if mi % 16 == 0 and not selfcheck_model(ctx, model, args, P, spec, real=True, holder=holder):
             continue
         for ci in range(maps_per_model):
             crng = ctx.child_rng(2, mi, ci)
@@ -230,20 +252,51 @@ def run(ctx):
             entries = M.gen_entries(crng, P, vec, counter)
             if not entries:
                 continue
-            builder = M.BUILDERS[int(crng.integers(len(M.BUILDERS)))]
+            builder = ARMS[int(crng.integers(len(ARMS)))]
             if builder == "vmap_built" and not any(e.idxform == "array" for e in entries):
                 builder = "or_fold"
+            if builder == "switch_map" and any(not e.addr for e in entries):
+                builder = "or_fold"
+            static_read = builder in ("switch_map", "own_choices")
+            rng2 = np.random.default_rng(int(crng.integers(1 << 30)))
             try:
-                chm = M.build_map(builder, entries, np.random.default_rng(int(crng.integers(1 << 30))))
+                if builder == "masked":
+                    chm = M.build_map("or_fold", entries, rng2).mask(jnp.asarray(True))
+                elif builder == "switch_map":
+                    from genjax import ChoiceMap
+                    from genjax import ChoiceMapBuilder as C
+
+                    k = 2 + int(crng.integers(2))
+                    groups = [[] for _ in range(k)]
+                    for e in entries:
+                        groups[int(crng.integers(k))].append(e)
+                    branches = [M.build_map("or_fold", g, rng2) if g else C.n() for g in groups]
+                    chm = ChoiceMap.switch(jnp.asarray(int(crng.integers(k)), dtype=jnp.int32), branches)
+                elif builder == "own_choices":
+                    # a trace's own choices (all traceable by definition, for any model) + untraceable extras
+                    own = holder.get("own")
+                    if own is None or ci % 2:
+                        own = model.get_zero_trace(*args).get_choices()
+                    else:
+                        ctx.count("own_choices_from_real_trace")
+                    entries = [e for e in entries if not e.valid and e.addr and not any(M._is_prefix(p, e.static) or M._is_prefix(e.static, p) for p in P)]
+                    chm = (own | M.build_map("or_fold", entries, rng2)) if entries else own
+                else:
+                    chm = M.build_map(builder, entries, rng2)
             except Exception as e:  # noqa: BLE001
                 ctx.reject("map:" + common.exc_mechanism(e))
                 ctx.note(f"map build failed ({builder}) {[e_.show() for e_ in entries]}: {type(e).__name__}: {e}"[:300])
                 continue
             # the constraint map must denote the finite map we think it does
             try:
-                good = M.same_finite_map(M.enumerate_map(chm), M.expected_map(entries)) and M.float_census(chm) == _census_expected(entries)
-                if good and all(e.idxform == "none" for e in entries):
-                    good = all(M.lookup(chm, tuple(e.addr))[0] for e in entries)
+                if builder == "own_choices":
+                    good = True
+                elif static_read:
+                    good = M.same_finite_map(M.enumerate_map(chm, static=True), M.expected_map(entries))
+                else:
+                    good = M.same_finite_map(M.enumerate_map(chm), M.expected_map(entries)) and M.float_census(chm) == _census_expected(entries)
+                    if good and all(e.idxform == "none" for e in entries):
+                        good = all(M.lookup(chm, tuple(e.addr))[0] for e in entries)
             except Exception as e:  # noqa: BLE001
                 good = False
                 ctx.note(f"map readback raised: {type(e).__name__}: {e}"[:200])
@@ -259,8 +312,7 @@ def run(ctx):
                 else:
                     res = chm.invalid_subset(model, args)
             except Exception as e:  # noqa: BLE001
-                e0 = next((x for x in entries if not x.valid), entries[0])
-                ctx.violation(_sig("invalid_subset", on, "raises", f"{builder},{common.exc_mechanism(e)}"), detail=f"{type(e).__name__}: {e}"[:400], model=M.show(spec), map=[x.show() for x in entries], first_class=e0.cls)
+                ctx.violation(_sig("invalid_subset", on, "raises", f"{builder},{common.exc_mechanism(e)}"), detail=f"{type(e).__name__}: {e}"[:400], model=M.show(spec), map=[x.show() for x in entries])
                 continue
             ctx.count("cases")
             ctx.count("arm_" + builder)
@@ -271,10 +323,10 @@ def run(ctx):
                 ctx.count("entry_" + e.cls)
                 if e.idxform != "none":
                     ctx.count("idx_" + e.idxform)
-            held = judge(ctx, model, args, spec, P, entries, builder, chm, res, on, check_again=(ci % 4 == 0))
+            held = judge(ctx, model, args, spec, P, entries, builder, chm, res, on, check_again=(ci % 4 == 0), static_read=static_read)
             if held:
                 ctx.count("held")
-            nontrivial = (len(entries) >= 2 or n_idx > 0) and (len(kinds - {"leaf", "static"}) > 0 or any(len(p) >= 2 for p in P))
+            nontrivial = (len(entries) >= 2 or n_idx > 0 or static_read) and (len(kinds - {"leaf", "static"}) > 0 or any(len(p) >= 2 for p in P))
             fp = (tuple(sorted(kinds)), tuple(sorted((e.cls, e.idxform) for e in entries)), builder)
             ctx.evaluation(fingerprint=fp, nontrivial=nontrivial)
             ctx.sample({"model": M.show(spec), "traceable": sorted("/".join(p) for p in P), "map": [e.show() for e in entries], "builder": builder, "result": common.short(res, 200)}, limit=3)
